@@ -234,4 +234,4 @@ def replay(path):
 
 
 def _t(e):
-    return tuple(_t(x) if isinstance(x, list) and x and isinstance(x[0], str) and x[0] in ("col", "lit", "add", "sub", "mul", "cmp", "and", "or", "not", "isnull", "in", "between") else x for x in e) if isinstance(e, (list, tuple)) else e
+    return tuple(_t(x) if isinstance(x, list) and x and isinstance(x[0], str) and x[0] in ("col", "lit", "add", "sub", "mul", "cmp", "and", "or", "not", "isnull", "in", "between", "tdim") else x for x in e) if isinstance(e, (list, tuple)) else e
